@@ -61,15 +61,20 @@ package browse
 //@   ensures [no_hidden_listed] forall(k, 0, len(result0.Items), exists(j, 0, len(files), !config.Fs.IsHidden(files[j]) && result0.Items[k].Name == files[j].Name()))
 //@   loop 1 invariant 0 <= #i && #i <= len(files) && forall(k, 0, len(fileInfos), exists(j, 0, #i, !config.Fs.IsHidden(files[j]) && fileInfos[k].Name == files[j].Name()))
 
-//@ unit archive_walk frames=on props=C02 filter=`browse\.Browse\)\.ServeArchive\$2$`
+//@ unit archive_walk frames=on props=C02,C03 filter=`browse\.Browse\)\.ServeArchive\$2$`
 //@ func (github.com/tmpim/casket/caskethttp/staticfiles.FileServer).IsHidden
 //@   pure
 //@ extern invoke:(io/fs.FileInfo).Mode
 //@   pure
 //@ extern invoke:(github.com/mholt/archiver/v3.Writer).Write
+//@ extern invoke:(io/fs.FileInfo).IsDir
+//@   pure
 //@ func (Browse).ServeArchive$2
 //@   requires bc != nil
 //@   at call invoke:(github.com/mholt/archiver/v3.Writer).Write assert [archive_sink_not_hidden] !bc.Fs.IsHidden(info)
+//@   // C02/C03: what is under a hidden directory (an `internal` location is put on the hide list by its setup) is hidden with
+//@   // it: the walk does not descend into a hidden directory (the walker skips a directory whose visit returns SkipDir)
+//@   ensures [a_hidden_directory_is_not_descended_into] (err == nil && info != nil && path != dirPath && bc.Fs.IsHidden(info) && info.IsDir()) ==> result != nil
 
 //@ unit setup_sweep props=C11,C08 files=setup.go nilchecks=on nonnil_params=on dispenser_variants=on filter=`.`
 //@ // Safety sweep of this directive's setup code: index, slice, division, nil-map store, nil dereference, explicit panic,
